@@ -6,6 +6,7 @@ package parser
 import (
 	"bufio"
 	"bytes"
+	"math"
 	"regexp"
 	"sort"
 	"strings"
@@ -62,6 +63,7 @@ func replaceSuffixes(inputLines *bytes.Buffer, suffixReplacements map[string]str
 
 	var sb strings.Builder
 	scanner := bufio.NewScanner(inputLines)
+	scanner.Buffer(nil, math.MaxInt)
 	scanner.Split(bufio.ScanLines)
 	skipRegex := regexp.MustCompile(`^(?:##!|\s*$)`)
 	for scanner.Scan() {
@@ -106,6 +108,7 @@ func removeExclusions(parser *Parser, excludeFileNames []string, includeMap incl
 		logger.Debug().Msgf("Processing exclusions from %s", fileName)
 		excludeContent, _ := parseFile(parser, fileName, definitions)
 		scanner := bufio.NewScanner(excludeContent)
+		scanner.Buffer(nil, math.MaxInt)
 		scanner.Split(bufio.ScanLines)
 		for scanner.Scan() {
 			exclusion := scanner.Text()
@@ -118,6 +121,7 @@ func removeExclusions(parser *Parser, excludeFileNames []string, includeMap incl
 func buildinclusionLineMap(parser *Parser, includeFileName string) (inclusionLineMap, map[string]string) {
 	includeContent, definitions := parseFile(parser, includeFileName, nil)
 	includeScanner := bufio.NewScanner(includeContent)
+	includeScanner.Buffer(nil, math.MaxInt)
 	includeScanner.Split(bufio.ScanLines)
 	includeMap := make(inclusionLineMap, 100)
 	index := 0
